@@ -56,8 +56,10 @@ func NewReceivePackSession(db objects.Store, rs ref.Store, c *Client, updates ma
 	if err != nil {
 		return nil, err
 	}
-	if err := NewShallowCommitError(db, rs, coms); err != nil {
+	if shallowErr, err := NewShallowCommitError(db, rs, coms); err != nil {
 		return nil, err
+	} else if shallowErr != nil {
+		return nil, shallowErr
 	}
 	s := &ReceivePackSession{
 		finder:          finder,
